@@ -166,6 +166,50 @@ Example C20_each_exactly_once_refuted_repaired :
   expected d13_h d13_ops = [mkPK (hx "10") 100 0 1; mkPK (hx "11") 200 0 2].
 Proof. repeat split; reflexivity. Qed.
 
+(* The property from the key generation on.  The producer model (Model/EonPK.v: what the
+   shuttermint observer writes to the three tables; the key generation itself is an input, its
+   outcomes arrive as lists [rs] of (eon, success, key) per Sync, any number per Sync and in any
+   order): one Sync of the model is the run of its operations, and for every history of Syncs
+   and polling ticks that is well-formed (a successful key generation is of a known eon of a
+   known set containing the keyper, and - dkg_result has the eon as primary key - no eon
+   finishes twice while its key is pending) and whose mechanisms accept: what each configured
+   mechanism was handed, together with what is still pending, is as a multiset exactly the
+   successful key generations [all_successes], stamped with the activation block and index of
+   their eon's keyper set; after a final tick nothing is pending. *)
+Theorem C20_from_the_key_generation_on :
+  (forall h d nc ne rs, sync_blocks d nc ne rs = fst (run h d (ops_of_sync nc ne rs))) /\
+  (forall h ps,
+      wf_from h empty_db (ops_of_pops ps) -> accepting (ops_of_pops ps) ->
+      let d := fst (run h empty_db (ops_of_pops ps)) in
+      let outs := snd (run h empty_db (ops_of_pops ps)) in
+      let tbl := tables_of (ops_of_pops ps) in
+      let successful := stamp_all h (eons tbl) (cfgs tbl) (all_successes ps) in
+      Forall (fun e => e = ENone) (tick_errors outs) /\
+      (h_bcast h = true -> Permutation (handed_to MBroadcast outs ++ pending_pks h d) successful) /\
+      (h_cb h = true -> Permutation (handed_to MCallback outs ++ pending_pks h d) successful) /\
+      (forall ps' enum answers, ps = ps' ++ [PTick enum answers] -> pending_pks h d = [])).
+Proof. split; [exact sync_blocks_is_run|exact from_the_key_generation_on]. Qed.
+Print Assumptions C20_from_the_key_generation_on.
+
+(* two keyper sets accepted in one block, their eons finish in one Sync together with a failed
+   one; one tick afterwards hands both successful keys over *)
+Definition ex_pops : list pop :=
+  [PSync [mkCfg 1 [hx "aa"; hx "bb"]; mkCfg 2 [hx "bb"; hx "aa"]] [mkEon 1 50 1; mkEon 2 60 2; mkEon 3 60 2] [];
+   PSync [] [] [mkRes 2 true (hx "22"); mkRes 3 false []; mkRes 1 true (hx "11")];
+   PTick [mkOut (hx "11") 1; mkOut (hx "22") 2] []].
+
+Example C20_from_the_key_generation_on_nonvacuous :
+  wf_from ex_h empty_db (ops_of_pops ex_pops) /\ accepting (ops_of_pops ex_pops) /\
+  all_successes ex_pops = [mkOut (hx "22") 2; mkOut (hx "11") 1] /\
+  handed_to MCallback (snd (run ex_h empty_db (ops_of_pops ex_pops)))
+  = [mkPK (hx "11") 50 1 1; mkPK (hx "22") 60 2 2].
+Proof.
+  split; [cbn; repeat split; try (apply good_rowb_sound; reflexivity); apply perm_swap|].
+  split; [intros enum answers Hin; simpl in Hin;
+          repeat (destruct Hin as [Hin|Hin]; [try discriminate; inversion Hin; reflexivity|]); contradiction|].
+  split; reflexivity.
+Qed.
+
 (* The second tie to the source: queryAndHandleNewEonPubKeys (the query first, then the loop
    with every guard and every return), broadcastEonPublicKey, database.GetKeyperIndex, the two
    medley casts and the field order of p2pmsg.NewSignedEonPublicKey, translated statement by
